@@ -25,6 +25,7 @@ RULES = [
     ("R-shuffle", "message_ids . shuffle ( & mut rand :: thread_rng ( ) ) ;", "vx_shuffle ( & mut message_ids , & mut rand :: thread_rng ( ) ) ;", "rand SliceRandom::shuffle stand-in (trusted: permutes in place)"),
     ("R-shuffle", "action_ids . shuffle ( & mut rand :: thread_rng ( ) ) ;", "vx_shuffle ( & mut action_ids , & mut rand :: thread_rng ( ) ) ;", "rand SliceRandom::shuffle stand-in (trusted: permutes in place)"),
     ("R-abs", "for ( _ , tx ) in self . bootstrap_txs . drain ( ) { tx . send ( ( ) ) . unwrap_or ( ( ) ) }", "vx_notify_all ( & mut self . bootstrap_txs ) ;", "ABSTRACTION: notifying bootstrap waiters (HashMap::drain + oneshot) replaced by an opaque stand-in; the loop is not verified"),
+    ("R-clpat", ". filter ( | ( _ , node , _ ) | announce_tokens . contains_key ( node ) )", ". filter ( | p | let ( _ , node , _ ) = p ; announce_tokens . contains_key ( node ) )", "closure pattern parameter -> named parameter + leading let (Verus needs a named parameter to state the closure's ensures)"),
     ("R-inline", "split_bucket . iter ( )", "split_bucket . nodes . iter ( )", "one-expression accessor Bucket::iter inlined"),
     ("R-inline", "bucket . iter ( )", "bucket . nodes . iter ( )", "one-expression accessor Bucket::iter inlined"),
 ]
